@@ -82,6 +82,10 @@ func TestC16(t *testing.T) {
 			if rapid.IntRange(0, 3).Draw(rt, "cancelearly") == 0 {
 				cancelAt = rapid.IntRange(0, 12).Draw(rt, "cancelstep2")
 			}
+			if strings.HasPrefix(cmode, "heal") && rapid.Bool().Draw(rt, "cancelmidheal") {
+				// healing runs are short: aim inside them
+				cancelAt = rapid.IntRange(8, 110).Draw(rt, "cancelstep4")
+			}
 			if many && rapid.Bool().Draw(rt, "cancellate") {
 				cancelAt = rapid.IntRange(400, 20000).Draw(rt, "cancelstep3")
 			}
